@@ -40,6 +40,10 @@ def cfg : Cfg :=
     ctxSep := ⟨Gen.C06.ctxSep.1, Gen.C06.ctxSep.2.1, Gen.C06.ctxSep.2.2⟩
     statuses := Gen.C06.statuses }
 
+/-- the translator's description of `bt = …` in create_time() → the model's three-valued setting -/
+def bootSrcOf (s : String) : BootSrc :=
+  if s == "or" then .or else if s == "isNotNone" then .isNotNone else if s == "fresh" then .fresh else .other
+
 /-- configuration of the code around the parsers (Model/C06Ext.lean) -/
 def xcfg : XCfg :=
   { tmapGlobs := Gen.C06.tmapGlobs
@@ -48,7 +52,7 @@ def xcfg : XCfg :=
     tmapMemoized := Gen.C06.tmapMemoized
     btimeKey := Gen.C06.btimeKey
     btimeIdx := Gen.C06.btimeIdx
-    createUsesCachedBoot := Gen.C06.createUsesCachedBoot
+    createBoot := bootSrcOf Gen.C06.createBoot
     threadsSorts := Gen.C06.threadsSorts
     threadsSkipsVanished := Gen.C06.threadsSkipsVanished
     threadsChecksAlive := Gen.C06.threadsChecksAlive
